@@ -1,6 +1,6 @@
 // C13 correspondence harness: Thread start/join, parallel_for, ThreadGroup, parallel_invoke, Semaphore, Condition.
 //   pfrow <i0> <nth> <lo> <hi>        parallel_for(i0, i1, f, nth) for every i1 in [lo,hi]: which indices ran, how often, grouped by thread
-//   thr <kind> <n> <reps>              kind: sub lam grp inv  -> ran counts and finished() after join, worst over reps
+//   thr <kind> <n> <reps>              kind: sub lam grp inv cpy  -> ran counts and finished() after join, worst over reps
 //   sem <ops>                          p = post, w = trywait  (single thread)  -> successes and final value
 //   semc <prod> <cons> <k>             concurrent posts and blocking waits, all must return
 //   cond <waiters> <reps>              documented condition-variable protocol, every waiter must return
@@ -78,6 +78,13 @@ static std::string thrOnce(const std::string& kind, int n)
 		for (int i = 0; i < n; i++) { ts.push_back(new Thread([r, i]() { __sync_add_and_fetch(r + i, 1); })); jitter(); }
 		for (int i = 0; i < n; i++) { ts[i]->join(); fin[i] = ts[i]->finished() ? 1 : 0; }
 		for (int i = 0; i < n; i++) delete ts[i];
+	}
+	else if (kind == "cpy") {
+		// a running function thread is copied (the copy takes over the handle); join and finished() through the copy
+		std::vector<Thread*> ts, cs;
+		for (int i = 0; i < n; i++) { ts.push_back(new Thread([r, i]() { jitter(); __sync_add_and_fetch(r + i, 1); })); cs.push_back(new Thread(*ts[i])); jitter(); }
+		for (int i = 0; i < n; i++) { cs[i]->join(); fin[i] = cs[i]->finished() ? 1 : 0; }
+		for (int i = 0; i < n; i++) { delete cs[i]; delete ts[i]; }
 	}
 	else if (kind == "grp") {
 		ThreadGroup<SubThread> g;
